@@ -86,6 +86,7 @@ package orb
 //@ spec attained2(r Bound, m MultiLineString, n int) bool = (exists i, j :: 0 <= i && i < n && 0 <= j && j < len(m[i]) && r.Min[0] == m[i][j][0]) && (exists i, j :: 0 <= i && i < n && 0 <= j && j < len(m[i]) && r.Min[1] == m[i][j][1]) && (exists i, j :: 0 <= i && i < n && 0 <= j && j < len(m[i]) && r.Max[0] == m[i][j][0]) && (exists i, j :: 0 <= i && i < n && 0 <= j && j < len(m[i]) && r.Max[1] == m[i][j][1])
 
 //@ func (MultiLineString).Bound(mls)
+//@   opt timeout=120
 //@   pure
 //@   ensures (allNonan2(mls)) ==> (nonanB(result))
 //@   ensures (allNonan2(mls)) ==> (noVerts2(mls, len(mls)) ==> isempty(result))
@@ -104,6 +105,7 @@ package orb
 //@ spec attained3(r Bound, m MultiPolygon, n int) bool = (exists i, j :: 0 <= i && i < n && len(m[i]) > 0 && 0 <= j && j < len(m[i][0]) && r.Min[0] == m[i][0][j][0]) && (exists i, j :: 0 <= i && i < n && len(m[i]) > 0 && 0 <= j && j < len(m[i][0]) && r.Min[1] == m[i][0][j][1]) && (exists i, j :: 0 <= i && i < n && len(m[i]) > 0 && 0 <= j && j < len(m[i][0]) && r.Max[0] == m[i][0][j][0]) && (exists i, j :: 0 <= i && i < n && len(m[i]) > 0 && 0 <= j && j < len(m[i][0]) && r.Max[1] == m[i][0][j][1])
 
 //@ func (MultiPolygon).Bound(mp)
+//@   opt timeout=120
 //@   pure
 //@   ensures (allNonan3(mp)) ==> (nonanB(result))
 //@   ensures (allNonan3(mp)) ==> (noVerts3(mp, len(mp)) ==> isempty(result))
